@@ -180,7 +180,14 @@ static bool check_sound(const std::string& key, const Target& T, const Shadow& R
       if (ref::feasible(nv, s, &w)) {
         if (!ref::sat(P.s, w) || member(R.iv[k], w[k])) { violation("harness.bug.sound_witness", key); return false; }
         std::ostringstream o; o << show_piece_wit(P, w) << " of the exact result is outside the result's interval " << show(R.iv[k]) << " for dimension " << k << "; result " << show(R) << "; " << ctx;
-        violation(key, o.str()); return false;
+        // triage: integral boundary that is exactly the inward rounding of the exact (non-integral) bound
+        std::string k2 = key;
+        if (TI.integer) {
+          bool bounded = true, first = true; Q sup;
+          for (size_t p2 = 0; p2 < T.pieces.size() && bounded; ++p2) { const ESys& P2 = T.pieces[p2]; int nv2 = P2.n + P2.aux; Vec d(nv2); d[k] = side ? 1 : -1; ref::SupResult sr = ref::supremum(nv2, P2.s, d); if (!sr.nonempty) continue; if (!sr.bounded) { bounded = false; break; } if (first || sr.sup > sup) { sup = sr.sup; first = false; } }
+          if (bounded && !first) { Q ex = side ? sup : Q(-sup); if (ex.get_den() != 1) { mpz_class fl; mpz_fdiv_q(fl.get_mpz_t(), ex.get_num_mpz_t(), ex.get_den_mpz_t()); Q inward = side ? Q(fl) : Q(fl + 1); if (b.v == inward) k2 += (key.find(':') == std::string::npos ? ":" : "+") + std::string("bound-rounded-inward"); } }
+        }
+        violation(k2, o.str()); return false;
       }
     }
   }
@@ -388,18 +395,51 @@ static void finish(const StepCtx& c, const std::string& op, const std::string& c
 }
 
 
-// Runs f in a forked child; true iff the child died (signal / sanitizer abort).  Used only for call classes that
-// are known to kill the process, so that the defect gets a key and the worker survives.
+// Runs f in a forked child with the trace echoed to a pipe; true iff the child died (signal / sanitizer abort).
+// Used only for call classes that are known to kill the process, so that the defect gets a key and the worker survives.
+// `report` receives the child's stderr (op trace lines + sanitizer report).
 #include <sys/wait.h>
 #include <fcntl.h>
-static bool dies_in_child(const std::function<void()>& f) {
-  fflush(0);
+static bool child_dies(const std::function<void()>& f, std::string& report) {
+  fflush(0); report.clear();
+  int fds[2]; if (pipe(fds) != 0) return false;
   pid_t pid = fork();
-  if (pid < 0) return false;
-  if (pid == 0) { int fd = open("/dev/null", O_WRONLY); if (fd >= 0) { dup2(fd, 2); dup2(fd, 1); } alarm(30); try { f(); } catch (...) {} _exit(0); }
+  if (pid < 0) { close(fds[0]); close(fds[1]); return false; }
+  if (pid == 0) {
+    close(fds[0]); dup2(fds[1], 2); int fd = open("/dev/null", O_WRONLY); if (fd >= 0) dup2(fd, 1);
+    hx::st().out = 0; hx::opt().verbose = true; alarm(30);
+    try { f(); } catch (...) {}
+    _exit(0);
+  }
+  close(fds[1]);
+  char buf[4096]; ssize_t k;
+  while ((k = read(fds[0], buf, sizeof buf)) > 0) if (report.size() < 200000) report.append(buf, (size_t) k);
+  close(fds[0]);
   int st = 0; if (waitpid(pid, &st, 0) < 0) return false;
   hx::count("forked_probes");
   return WIFSIGNALED(st) || (WIFEXITED(st) && WEXITSTATUS(st) != 0);
+}
+static bool dies_in_child(const std::function<void()>& f) { std::string r; return child_dies(f, r); }
+// a stable word for the way the child died
+static std::string death_kind(const std::string& report) {
+  if (report.find("shift exponent") != std::string::npos) return "ubsan-shift-exponent";
+  if (report.find("runtime error: signed integer overflow") != std::string::npos) return "ubsan-signed-overflow";
+  if (report.find("runtime error:") != std::string::npos) return "ubsan";
+  if (report.find("AddressSanitizer: FPE") != std::string::npos) return "SIGFPE";
+  if (report.find("SEGV on unknown address 0x000000000000 (pc 0x000000000000") != std::string::npos) return "call-through-null(ppl_unreachable)";
+  if (report.find("AddressSanitizer: SEGV") != std::string::npos) return "SEGV";
+  if (report.find("AddressSanitizer:") != std::string::npos) return "asan";
+  return "died";
+}
+static std::string last_op_of(const std::string& text) {
+  size_t p = text.rfind("op: "); if (p == std::string::npos) return "?";
+  size_t e = text.find('\n', p); std::string line = text.substr(p + 4, e == std::string::npos ? std::string::npos : e - p - 4);
+  size_t q = line.find(" | #"); if (q != std::string::npos) line = line.substr(q + 3);
+  size_t a = line.find_first_of(".="), b2 = line.find_first_of("({,", a == std::string::npos ? 0 : a);
+  std::string opn = (a != std::string::npos && b2 != std::string::npos && b2 > a) ? line.substr(a + 1, b2 - a - 1) : line.substr(0, 40);
+  while (!opn.empty() && opn[0] == ' ') opn.erase(0, 1);
+  if (opn.compare(0, 4, "tmp.") == 0) opn = opn.substr(4);
+  return opn;
 }
 
 static bool mutate(StepCtx& c) {
@@ -551,6 +591,7 @@ static bool mutate(StepCtx& c) {
       // known process-killing class (division by the zero coefficient of var): probe in a child first
       if (dies_in_child([&]() { BP x(A.clone()); x->bounded_affine_preimage(Variable(v), lb, ub, d); })) {
         checked(); violation("C03.crash." + INST + ".bounded_affine_preimage:" + (!su && lo_bounded ? "var-not-in-ub+var-bounded-below" : "var-not-in-lb+var-bounded-above"), "the call kills the process (SIGFPE / sanitizer abort); " + ctx_of(c, false));
+        hx::st().case_tainted = false;   // the call was not made in this process: the state is intact
         return true;
       }
     }
@@ -692,7 +733,7 @@ static void run_queries(StepCtx& c) {
     else if (rg.kind == Gen::POINT) subs = member(SA, rg.v);
     else if (rg.kind == Gen::CLOSURE_POINT) subs = ref::sat(ref::closure_of(sA), rg.v);
     else { subs = true; for (int k = 0; k < n && subs; ++k) { if (rg.v[k] > 0 || (rg.kind == Gen::LINE && rg.v[k] != 0)) if (!SA.iv[k].hi.inf) subs = false; if (rg.v[k] < 0 || (rg.kind == Gen::LINE && rg.v[k] != 0)) if (!SA.iv[k].lo.inf) subs = false; } }
-    check_bool("relation_with_g.subsumes", r.implies(Poly_Gen_Relation::subsumes()), subs, str(g) + "; " + ctx);
+    check_bool(std::string("relation_with_g.subsumes") + ((int) g.space_dimension() < n ? ":generator-lower-dimensional" : ""), r.implies(Poly_Gen_Relation::subsumes()), subs, str(g) + "; " + ctx);
     break; }
   case 7: case 8: {
     Linear_Expression e = rexpr(n, 30); bool mx = (which == 7);
@@ -1127,6 +1168,11 @@ static void integer_ops(StepCtx& c, BP& slot) {
     std::string ovn = ov == 0 ? "wraps" : ov == 1 ? "undefined" : "impossible";
     if (nontrivial(c.clsA)) hx::distinct("wrap|" + INST + "|" + std::to_string(w) + (sgn ? "s" : "u") + ovn + (use_guard ? "g" : "") + "|" + c.stl + "|" + c.clsA);
     BP Rb(c.A->clone());
+    auto do_wrap = [&](BoxI& X) { X.wrap_assign(vars, (Bounded_Integer_Type_Width) w, sgn ? SIGNED_2_COMPLEMENT : UNSIGNED, ov == 0 ? OVERFLOW_WRAPS : ov == 1 ? OVERFLOW_UNDEFINED : OVERFLOW_IMPOSSIBLE, use_guard ? &guard : 0, thr, indiv); };
+    if (TI.fdigits && w == 64 && ov == 0 && !vars.empty()) {
+      // known process-killing class under UBSan (1ULL << 64 in the floating point 2exp helpers): probe in a child first
+      if (dies_in_child([&]() { BP x(c.A->clone()); do_wrap(*x); })) { checked(); violation("C17.box." + INST + ".wrap_assign.crash:float-boundary+64-bit+wraps", "the call kills the process (sanitizer abort: shift exponent 64); argument " + show(SA)); hx::st().case_tainted = false; return; }
+    }
     Rb->wrap_assign(vars, (Bounded_Integer_Type_Width) w, sgn ? SIGNED_2_COMPLEMENT : UNSIGNED, ov == 0 ? OVERFLOW_WRAPS : ov == 1 ? OVERFLOW_UNDEFINED : OVERFLOW_IMPOSSIBLE, use_guard ? &guard : 0, thr, indiv);
     Shadow R; if (!observe(*Rb, R, "wrap_assign")) return;
     Sys GS; for (size_t i = 0; i < gv.size(); ++i) GS.push_back(ref::conv(gv[i], n));
@@ -1263,12 +1309,28 @@ static void run_case(uint64_t) {
       else if (profile == "wrap") { w_mut = 25; w_query = 8; w_conv = 4; w_dims = 3; w_int = 60; w_twin = 0; }
       if (!TI.exact) { w_query += w_twin; w_twin = 0; }
       int kind = rnd(0, 99);
-      if (kind < w_mut) { last = "mutator"; mutate(c); }
-      else if ((kind -= w_mut) < w_query) { last = "query"; run_queries(c); }
-      else if ((kind -= w_query) < w_conv) { last = "constructor"; construct(c, pool[ai]); }
-      else if ((kind -= w_conv) < w_dims) { last = "dims"; dims_op(c); }
-      else if ((kind -= w_dims) < w_int) { last = "integer"; integer_ops(c, pool[ai]); }
-      else { last = "twin"; twin_check(c); }
+      auto do_step = [&]() {
+        int kd = kind;
+        if (kd < w_mut) { last = "mutator"; mutate(c); }
+        else if ((kd -= w_mut) < w_query) { last = "query"; run_queries(c); }
+        else if ((kd -= w_query) < w_conv) { last = "constructor"; construct(c, pool[ai]); }
+        else if ((kd -= w_conv) < w_dims) { last = "dims"; dims_op(c); }
+        else if ((kd -= w_dims) < w_int) { last = "integer"; integer_ops(c, pool[ai]); }
+        else { last = "twin"; twin_check(c); }
+      };
+      // 64-bit native boundaries: overflowing temporaries reach PPL_UNREACHABLE (a call through a null pointer in this
+      // build) in several operators; every step is first tried in a child so that the worker survives and the defect is keyed.
+      if (TI.bits == 64 && !(kind >= w_mut && kind < w_mut + w_query)) {
+        std::string rep;
+        if (child_dies(do_step, rep)) {
+          std::string opn = last_op_of(rep); checked();
+          bool c17 = opn.find("wrap_assign") != std::string::npos || opn.find("drop_some") != std::string::npos;
+          violation((c17 ? "C17.box." + INST + "." + opn + ".crash:" : "C03.crash." + INST + "." + opn + ":") + death_kind(rep), "the step kills the process; receiver " + show(c.SA) + " argument " + show(c.SB) + "; last lines: " + (rep.size() > 600 ? rep.substr(rep.size() - 600) : rep));
+          hx::st().case_tainted = false;   // nothing was executed in this process
+          continue;
+        }
+      }
+      do_step();
     } catch (const Logical_Timeout&) {
       std::string t = hx::trace(); size_t p = t.rfind(" | #"); std::string lastop = p == std::string::npos ? t : t.substr(p + 3); size_t a = lastop.find('.'), b = lastop.find('(');
       std::string opn = (a != std::string::npos && b != std::string::npos && b > a) ? lastop.substr(a + 1, b - a - 1) : last;
